@@ -218,6 +218,17 @@ def _case(seed: int) -> Dict[str, Any]:
             g, success = rt.lib(fails, "critical_path_analysis", inp, ta.critical_path_analysis, rank=0, annotation="ProfilerStep", instance_id=inst, _allow=(AssertionError,))
             if not success:
                 return {"n_checks": 0, "fails": [], "nontrivial": False}
+            if seed % 3 == 0:
+                # a second graph of the same session (another window), analysed AFTER this one and asked for its tables BEFORE this one:
+                # the tables of a graph are a function of that graph, whatever other graphs are alive
+                inp["another_graph_analysed_and_inspected_first"] = {"instance_id": 1}
+                try:
+                    g2, ok2 = ta.critical_path_analysis(rank=0, annotation="ProfilerStep", instance_id=1)
+                    if ok2:
+                        g2.get_critical_path_breakdown()
+                        g2.summary()
+                except Exception:  # noqa: BLE001  (the other window is judged by its own case)
+                    pass
             bd = rt.lib(fails, "get_critical_path_breakdown", inp, g.get_critical_path_breakdown)
             summ = rt.lib(fails, "summary", inp, g.summary)
         except rt.LibFailure:
